@@ -52,6 +52,8 @@ func corpus() []core.Case {
 		{Lines: []string{"@ C20 count 10,5,1,4294967296", "gen 61 5", "min 5", "max 5", "gen 61 10", "min 10", "max 10"}, Tag: "corpus"},
 		{Lines: []string{"@ C20 count 10,8589934592,1,4294967301 20,4294967295,3,12884901888", "gen 61 5", "gen 61 10", "min 10", "max 10", "gen 61 25", "min 25", "max 25"}, Tag: "corpus"},
 		{Lines: []string{"@ C20 count", "gen 61 10", "min 10", "max 10"}, Tag: "corpus"},
+		// Generate before the first AddRule, then the same id again, another id, the first id with a smaller diff
+		{Lines: []string{"@ C20 count", "gen 61 10", "addrule 20,5,1,7", "gen 61 10", "gen 62 10", "gen 61 5", "gen 61 10", "min 10", "max 10", "addrule 40,9,2,5", "gen 61 30", "gen 61 10", "gen 62 30"}, Tag: "order"},
 		// two rules with the same period in both relative orders (Generate differs, the property holds for each)
 		{Lines: []string{"@ C20 countraw 10,5,1,4 10,7,2,3 25,2,3,2", "gen 61 9", "min 9", "max 9", "gen 61 10", "min 10", "max 10", "gen 61 24", "gen 61 25", "min 25", "max 25"}, Tag: "corpus"},
 		{Lines: []string{"@ C20 countraw 10,7,2,3 10,5,1,4 25,2,3,2", "gen 61 9", "min 9", "max 9", "gen 61 10", "min 10", "max 10", "gen 61 24", "gen 61 25", "min 25", "max 25"}, Tag: "corpus"},
@@ -67,6 +69,9 @@ var near = []byte("ilouILOUZ!@`{/:9a _-")
 func gen(r *core.Rand, tier string) core.Case {
 	if r.Chance(6) {
 		return genMag(r, tier)
+	}
+	if r.Chance(5) {
+		return genCountOrder(r)
 	}
 	if r.Chance(map[bool]int{false: 1, true: 4}[tier == "thorough"]) && r.Chance(30) {
 		return genStrLarge(r, tier)
@@ -266,9 +271,7 @@ func genStr(r *core.Rand) core.Case {
 			ws = append(ws, strconv.FormatUint(w, 10))
 		}
 		lines = append(lines, strings.TrimSpace(fmt.Sprintf("gen %d %s", n, strings.Join(ws, " "))))
-		if n < 0 {
-			break // the generator panics; the case is dead afterwards
-		}
+		// after Generate(n<0) panicked the generator is used again (it must behave as before)
 	}
 	return core.Case{Lines: lines, Tag: "str"}
 }
@@ -548,4 +551,49 @@ func genMag(r *core.Rand, tier string) core.Case {
 		}
 	}
 	return core.Case{Lines: lines, Tag: "magnitude"}
+}
+
+// genCountOrder (order of public calls): Generate BEFORE the first AddRule (empty rule
+// list), rules added between Generates, the same id repeated / two ids alternating, diffs
+// going up and down, so that any memo kept across calls (last id, last hash, last rule
+// count) goes stale if it is not a function of the current arguments.
+func genCountOrder(r *core.Rand) core.Case {
+	hdr := "@ C20 count"
+	p := 0
+	rule := func() string {
+		p += r.Range(3, 40)
+		i := r.Range(1, 4)
+		return fmt.Sprintf("%d,%d,%d,%d", p, r.Range(2, 50), i, r.Range(2, 9))
+	}
+	for k := r.Intn(3); k > 0 && !r.Chance(50); k-- {
+		hdr += " " + rule()
+	}
+	lines := []string{hdr}
+	ids := []string{hx([]byte("a")), hx([]byte("user:" + strconv.Itoa(r.Intn(100)))), hx(r.Bytes(r.Range(1, 5)))}
+	cur := ids[r.Intn(3)]
+	gens := func(n int) {
+		for ; n > 0; n-- {
+			switch r.Pick(50, 30, 20) {
+			case 0: // same id again
+			case 1:
+				cur = ids[r.Intn(3)]
+			case 2:
+				cur = ids[r.Intn(2)]
+			}
+			d := r.Range(0, p+20)
+			if r.Chance(15) {
+				d = r.Range(-1, 1)
+			}
+			lines = append(lines, fmt.Sprintf("gen %s %d", cur, d))
+			if r.Chance(25) {
+				lines = append(lines, fmt.Sprintf("min %d", d), fmt.Sprintf("max %d", d))
+			}
+		}
+	}
+	gens(r.Range(1, 4))
+	for k := r.Range(1, 4); k > 0; k-- {
+		lines = append(lines, "addrule "+rule())
+		gens(r.Range(2, 8))
+	}
+	return core.Case{Lines: lines, Tag: "order"}
 }
